@@ -9,6 +9,7 @@ from pyvc.verify import verify_function, ClassModel
 from pyvc.libspec import SArr
 from .dataset_world import make_world
 from . import listing_native as ln
+from . import apollo_native as an
 
 ID = 'C10'
 LEVEL = 'other'
@@ -22,12 +23,13 @@ EXPLANATION = ('Partial. By contract (obligations from the AST, z3 over extended
                'dimensions and axes are left alone (trace contract over np.flip).  Not decidable by a contract within reach: that the pyparsing grammar (grammar.py, common.py, '
                'transform.py: about 4 600 lines of combinators and parse actions), the scanner\'s state machine and the h5py group walk return what the FILE says -- the '
                'specification would be the Tripoli-4 / Apollo3 output formats themselves.  That part is covered only by the labelled bounded unit: the shipped listings '
-               're-written with known, pairwise distinct numbers (tables as printed and in the reverse order), parsed by the real Parser and every number looked up.')
+               're-written with known, pairwise distinct numbers (tables as printed and in the reverse order), parsed by the real Parser and every number looked up (step-integrated results on the bin of the table they close); and, for Apollo3, every stored result of the shipped HDF5 files read with '
+               'Reader and picked with Picker against the arrays h5py returns, each file followed in the same process by a copy storing its isotopes in the reverse order.')
 ASSUMPTIONS = [
     'A-real, A-numpy (pointwise arithmetic, copy, flip(a, axis) reverses along that axis and nothing else); structured arrays are modelled as records of equally shaped field arrays',
     'Dataset.__init__ through its contract (stores value, error, a shallow copy of bins, name, what; C08)',
     'the axis of dimension d in every array of a DictBuilder is the position of d in self.bins (the builders create 7-d arrays in the order u, v, w, e, t, mu, phi: not verified)',
-    'grammar, parse actions, scanner, transform.py, HDF5 reader / picker: executed by the bounded unit only; Apollo3 files are not covered at all',
+    'grammar, parse actions, scanner, transform.py, HDF5 reader / picker: executed by the bounded units only (no contract); HDF5 files other than the 6 shipped ones and their re-ordered copies are not generated',
     'bins_reduction and integrated_result (stepped slices, np.full) are not under contract: bounded unit only',
     'A-log: LOGGER calls dropped',
 ]
@@ -210,7 +212,7 @@ def flip_check(I, scope, outcome):
 
 
 def units(tier):
-    return ['result_with_error', 'array_result', 'flip_bins', 'native']
+    return ['result_with_error', 'array_result', 'flip_bins', 'native', 'native_apollo3']
 
 
 def _replay_native(name, inp):
@@ -237,6 +239,8 @@ def run_unit(unit, tier, seed, known):
             out['failures'] = [{'input': x, 'observed': 'the spectrum printed next to a mesh is not in the parse result', 'expected': 'every printed score is read'}
                                for x in out['known_seen_inputs']] + out['failures']
         return {'bounded': [out], 'known_seen': seen}
+    if unit == 'native_apollo3':
+        return {'bounded': [an.sweep(tier, seed)]}
     if unit == 'result_with_error':
         out = []
         for variant in ('score-and-sigma-percent', 'absolute-sigma-stored', 'not-converged'):
@@ -254,6 +258,8 @@ def run_unit(unit, tier, seed, known):
 
 
 def replay(name, inp):
+    if inp and 'hdf5' in inp:
+        return an.replay(inp)
     if inp and 'listing' in inp:
         return ln.replay(inp)
     return _replay_native(name or '', inp)
